@@ -379,8 +379,13 @@ fn check_program(ctx: &mut Ctx, prog: &program::Program, pidx: u64, stepper: Ste
     verif::stop();
     let (delivered, _) = verif::totals();
     match r {
-      Err(_) => {
-        report(ctx, "run_frame-does-not-terminate", 0, format!("run_frame() from PC {:04X} was still running after {} emulated clocks (bound {})", pc, delivered, bound));
+      Err(e) => {
+        let msg = e.downcast_ref::<String>().cloned().or_else(|| e.downcast_ref::<&str>().map(|s| s.to_string())).unwrap_or_default();
+        if delivered > bound {
+          report(ctx, "run_frame-does-not-terminate", 0, format!("run_frame() from PC {:04X} was still running after {} emulated clocks (bound {})", pc, delivered, bound));
+        } else {
+          report(ctx, "run_frame-panicked", 0, format!("run_frame() from PC {:04X} panicked after {} emulated clocks: {}", pc, delivered, msg));
+        }
         return;
       }
       Ok(()) => {
